@@ -42,6 +42,9 @@ type RecBucket struct {
 	// FailBody: Get of a matching object succeeds but the returned reader fails after half of
 	// the bytes (a transfer cut in the middle); logged as an extra op of kind "getbody".
 	FailBody func(kind, name string) bool
+	// IterFail: IterWithAttributes on a matching directory fails with ErrInjected after having
+	// passed `after` objects to the callback (0 = before the first object).
+	IterFail func(dir string) (after int, ok bool)
 	// ModTime, when set, overrides the last-modified time reported by
 	// IterWithAttributes (ok=false keeps the underlying value; a zero time
 	// means "not available").
@@ -118,15 +121,36 @@ func (b *RecBucket) IterWithAttributes(ctx context.Context, dir string, f func(o
 	if b.rec("iter", dir, true) {
 		return ErrInjected
 	}
-	if b.ModTime == nil {
+	failAfter, failing := -1, false
+	if b.IterFail != nil {
+		failAfter, failing = b.IterFail(dir)
+	}
+	if b.ModTime == nil && !failing {
 		return b.Bucket.IterWithAttributes(ctx, dir, f, o...)
 	}
-	return b.Bucket.IterWithAttributes(ctx, dir, func(a objstore.IterObjectAttributes) error {
-		if t, ok := b.ModTime(a.Name); ok {
-			a.SetLastModified(t)
+	seen := 0
+	err := b.Bucket.IterWithAttributes(ctx, dir, func(a objstore.IterObjectAttributes) error {
+		if failing && seen == failAfter {
+			return ErrInjected
+		}
+		seen++
+		if b.ModTime != nil {
+			if t, ok := b.ModTime(a.Name); ok {
+				a.SetLastModified(t)
+			}
 		}
 		return f(a)
 	}, o...)
+	if err == nil && failing && seen <= failAfter {
+		// fewer objects than the fault position: the listing still ends with an error
+		err = ErrInjected
+	}
+	if failing && err != nil {
+		b.mu.Lock()
+		b.ops = append(b.ops, Op{Kind: "iterfail", Name: dir, Seq: len(b.ops), Failed: true})
+		b.mu.Unlock()
+	}
+	return err
 }
 
 func (b *RecBucket) Get(ctx context.Context, name string) (io.ReadCloser, error) {
